@@ -472,7 +472,7 @@ MANIFEST = {
     "technique": "bounded exhaustive enumeration of conversions against exact monomial arithmetic from an independent definition-file reader (R1); cold/swapped/warm query orders on one registry instance",
     "text": "Every ordered same-dimension pair of multiplicative canonical units (23k) in Fraction (exact equality, no float), float (<=64 ulp) and Decimal (1e-24) registries, each asked cold, after the "
     "swapped pair and warm; all 72 prefix spellings x all multiplicative unit spellings x {'', 's'} (130k strings) through get_root_units (factor = prefix x unit exactly once); identity, inverse and "
-    "every ordered pair of spellings of ONE unit (name, symbol, aliases, plural, prefixed by name and by symbol) as single-entry containers (identity) and together in one container (the square); path independence on every triple within each dimension class; every ordered same-dimension pair of 1-2 entry compound containers over 12 units on ONE registry instance so that sibling cache keys "
+    "float ndarray magnitudes through to / m_as / convert / ito — twice on the same object, plainly and with a context named — with the source required to stay bit-identical; every ordered pair of spellings of ONE unit (name, symbol, aliases, plural, prefixed by name and by symbol) as single-entry containers (identity) and together in one container (the square); path independence on every triple within each dimension class; every ordered same-dimension pair of 1-2 entry compound containers over 12 units on ONE registry instance so that sibling cache keys "
     "(exponent -1 vs -2, swapped operands) meet; 75 generated definition files x 3 numeric types. The expected value is R1's exact ratio; result types are checked for float contamination.",
     "note": "Trusted: R1 monomial algebra (cross-checked: 0 disagreements with pint over all 402 units on the unchanged tree). Units reached through a fractional power are compared with tolerance even in "
     "the Fraction registry (Python turns Fraction**0.5 into float). Compounds with more than 2 factors and units outside the 12-unit alphabet in compound position are outside the bound.",
